@@ -658,7 +658,7 @@ pub fn check(tier: &str) -> i32 {
     };
     rep.run_part(&l2, Duration::from_secs(60));
 
-    let step = if thorough { 5 } else { 10 };
+    let step = if thorough { 2 } else { 10 };
     let deltas: Vec<u64> = (0..=3000).step_by(step).collect();
     let nd = deltas.len() as u64;
     let js = [0u64, 125, 249];
